@@ -50,6 +50,13 @@ def cmd_import(args):
 
 
 def run_demo(wt, demo):
+    # demonstrations may locate the tree through their own path: run a copy placed where
+    # the sub-agent had it (<worktree>/out/<k>/demo.py)
+    dst_dir = os.path.join(wt, "out", "k")
+    os.makedirs(dst_dir, exist_ok=True)
+    dst = os.path.join(dst_dir, "demo.py")
+    shutil.copy(demo, dst)
+    demo = dst
     r = sh(f"cd {wt} && PYTHONPATH={wt} timeout 300 /venv/bin/python {demo}")
     return r.returncode, (r.stdout + r.stderr)[-600:]
 
